@@ -19,8 +19,8 @@ import (
 // difference has exactly that shape:
 //   (b) the entry's address is issued (the keystore manages it) and the final best chain pays
 //       nothing of the entry's class to it, and
-//   (c) a block that is not on the final best chain pays the address and was processed by
-//       exactly one of the two runs.
+//   (c) a block that is not on the final best chain pays the address and was processed by (at
+//       least) one of the two runs — live, by catch-up, or by a restore scanning it.
 // Anything else is a genuine divergence.
 
 // payClass: 0 = standard witness output, 1 = staking output, -1 = anything else.
@@ -164,12 +164,12 @@ func explainSoft(s *Script, final []*massutil.Block, strict string, softA, softB
 		// (c) an abandoned block paying it, processed by exactly one run
 		found := false
 		for h, blk := range s.byHash() {
-			if !onFinal[h] && seenA[h] != seenB[h] && blockPays(blk, sh, -1) {
+			if !onFinal[h] && (seenA[h] || seenB[h]) && blockPays(blk, sh, -1) {
 				found = true
 			}
 		}
 		if !found {
-			return fmt.Sprintf("%v differs (%q vs %q) and no abandoned block paying it was processed by exactly one of the two runs", e, a[e], b[e])
+			return fmt.Sprintf("%v differs (%q vs %q) and no abandoned block paying it was processed by either run", e, a[e], b[e])
 		}
 	}
 	return ""
